@@ -1,5 +1,6 @@
 import Mp4ff.Model.Sei
 import Mp4ff.Lemmas.C17Framing
+import Mp4ff.Lemmas.C17Typed
 /-!
 # C17 — SEI messages survive write/parse round trips
 (Property theorems are added from `Mp4ff/Lemmas/C17*.lean` as they are completed.)
@@ -24,6 +25,30 @@ theorem sei_framing (msgs : List Msg) (hne : msgs ≠ []) (hok : ∀ m ∈ msgs,
 /-- what is written is the escaped form of type/size/payload bytes followed by the 0x80 trailing byte -/
 theorem writeSEI_shape (msgs : List Msg) (hok : ∀ m ∈ msgs, MsgOK m) :
     writeSEI msgs = esc 0 (msgsBytes msgs ++ [0x80]) := Sei.writeSEI_eq msgs (fun m hm => (hok m hm).2.2)
+
+/-- **time code (SEI 136)**: serialise → decode is the identity and `Size()` equals the serialised length, for
+    0..3 clocks with every flag combination and time-offset lengths 0..31 (when the bit count is a multiple of
+    8 the final marker bit does not fit the `Size()`-sized writer and is dropped: shown harmless here) -/
+theorem timeCode_roundtrip (clocks : List ClockTS) (hn : clocks.length ≤ 3) (hc : ∀ c ∈ clocks, c.Canon) :
+    decodeTimeCode (timeCodePayload clocks) = (clocks, false) ∧
+    (timeCodePayload clocks).length = timeCodeSize clocks := Sei.timeCode_roundtrip clocks hn hc
+
+/-- **mastering display colour volume (SEI 137)** -/
+theorem mdcv_roundtrip (m : MDCV) (h : m.OK) :
+    decodeMDCV (mdcvPayload m) = some m ∧ (mdcvPayload m).length = 24 := Sei.mdcv_roundtrip m h
+
+/-- **content light level (SEI 144)** -/
+theorem cll_roundtrip (a b : Nat) (ha : a < 65536) (hb : b < 65536) :
+    decodeCLL (cllPayload a b) = some (a, b) ∧ (cllPayload a b).length = 4 := Sei.cll_roundtrip a b ha hb
+
+/-- **AVC picture timing (SEI 1)**: serialise → decode (with the HRD lengths and time offset length signalled in
+    the SPS) is the identity, signed time offsets included, and `Size()` equals the serialised length -/
+theorem picTiming_roundtrip (tol : Nat) (p : PicTimingAvc) (h : p.OK tol) :
+    decodePicTimingAvc (picTimingPayload p) (p.hrd.map fun x => (x.2.2.1, x.2.2.2)) tol = some (p, false) ∧
+    (picTimingPayload p).length = picTimingSize p := Sei.picTiming_roundtrip tol p h
+
+example : (⟨17, 300, 0, 0, 59, true, false, false, true, false, false, true, false, 4, 5⟩ : ClockTS).Canon := by
+  simp [ClockTS.Canon]
 
 example : MsgOK ⟨70000, [0, 0, 1, 0, 0]⟩ := by simp [MsgOK, IsBytes]
 
